@@ -102,6 +102,7 @@ type Contracts struct {
 	Files   []string
 	AssumeLines []string // mechanical scan: every assume-contract / ASSUMED line
 	UsesCloseOnly map[string]bool // package name -> its contracts mention closeonly
+	WaitOrders map[string]*WaitOrder // package name -> total order of wait classes (deadlock freedom)
 }
 
 var clauseKeywords = map[string]bool{
@@ -111,12 +112,12 @@ var clauseKeywords = map[string]bool{
 	"monitor": true, "invariant": true, "rely": true, "self": true, "maypanic": true, "havoc": true,
 	"assume": true, "entry-assume": true, "ownschan": true, "strong-invariant": true, "ghostfield": true, "interferes": true, "ghost": true, "unroll": true, "trusted": true, "syncmap": true, "object-invariant": true, "rest-invariant": true, "wgadds": true, "gives": true,
 }
-var blockKeywords = map[string]bool{"type": true, "func": true, "spec": true, "lemma": true, "assume-contract": true, "global": true, "chan": true}
+var blockKeywords = map[string]bool{"waitorder": true, "type": true, "func": true, "spec": true, "lemma": true, "assume-contract": true, "global": true, "chan": true}
 
 var labelRe = regexp.MustCompile(`\s*\[([A-Za-z0-9_:\-\.]+)\]\s*$`)
 
 func LoadContracts(repo string) (*Contracts, error) {
-	cs := &Contracts{Funcs: map[string]*FuncContract{}, Types: map[string]*TypeContract{}, Specs: map[string]*SpecFunc{}, Globals: map[string][]*Clause{}, Assumed: map[string]*FuncContract{}, UsesCloseOnly: map[string]bool{}}
+	cs := &Contracts{Funcs: map[string]*FuncContract{}, Types: map[string]*TypeContract{}, Specs: map[string]*SpecFunc{}, Globals: map[string][]*Clause{}, Assumed: map[string]*FuncContract{}, UsesCloseOnly: map[string]bool{}, WaitOrders: map[string]*WaitOrder{}}
 	var files []string
 	filepath.Walk(repo, func(p string, info os.FileInfo, err error) error {
 		if err != nil {
@@ -261,6 +262,16 @@ func (cs *Contracts) parseFile(path string) error {
 			cs.Lemmas = append(cs.Lemmas, &Lemma{Pkg: pkg, Name: strings.TrimSpace(l.rest[:i]), E: e, From: from, Text: body})
 		case "chan":
 			// reserved
+		case "waitorder":
+			curF, curT = nil, nil
+			wo, err := parseWaitOrder(pkg, l.rest, path, l.line)
+			if err != nil {
+				return err
+			}
+			if _, dup := cs.WaitOrders[pkg]; dup {
+				return fmt.Errorf("%s:%d: a package has one waitorder", path, l.line)
+			}
+			cs.WaitOrders[pkg] = wo
 		default:
 			if curT != nil {
 				switch l.kw {
